@@ -45,7 +45,7 @@ REQUIRED = {"roundtrip.v2.mol": 50, "roundtrip.v2.ens": 20, "roundtrip.v1.mol": 
             "source.real-valued-fractional-bond-order": 300, "source.text-with-outer-white-space": 150,
             "source.multiplicity-outside-1-3": 30, "key.leading-or-trailing-white-space": 150, "key.empty": 10,
             "source.large-numeric-block.mol": 4, "source.large-numeric-block.ens": 2, "source.large-attribute-block": 20,
-            "read.items": 500, "read.values": 500, "read.second-hop": 500, "read.conversion-hop": 20,
+            "read.items": 500, "read.values": 500, "read.second-hop": 500, "read.bulk-copy": 500, "source.attribute-mapping-keyed-by-tuples": 100, "read.conversion-hop": 20,
             "read.array-kind-compared": 500,
             "library.other-format-version-constructed-later-used-alternately": 3,
             "library.path-re-created-in-other-format.v1-to-v2": 2, "library.path-re-created-in-other-format.v2-to-v1": 2,
@@ -268,6 +268,19 @@ def enrich(rng, x, kind, ctx, np, gen):
             x.name = rng.choice(WS_TEXT)
             x.attrib[rng.choice(WS_TEXT)] = [rng.choice(WS_TEXT), {rng.choice(WS_TEXT): rng.choice(WS_TEXT)}]
         ctx.count("source.text-with-outer-white-space")
+    if rng.random() < 0.15:
+        # mappings keyed by tuples (pair tables: (i, j) -> value) are legal attribute values
+        tk = {(rng.randrange(5), rng.randrange(5)): rng.choice([0.875, 2, "x"]) for _ in range(rng.randrange(1, 4))}
+        where = rng.randrange(3)
+        if where == 0 or not x.n_atoms:
+            x.attrib["pairs"] = tk
+        elif where == 1:
+            rng.choice(list(x.atoms)).attrib["pairs"] = tk
+        elif x.n_bonds:
+            rng.choice(list(x.bonds)).attrib["pairs"] = tk
+        else:
+            x.attrib["pairs"] = tk
+        ctx.count("source.attribute-mapping-keyed-by-tuples")
     if rng.random() < 0.08:
         x.mult = rng.choice([0, 0, 4, 5, 7])
         ctx.count("source.multiplicity-outside-1-3")
@@ -700,6 +713,35 @@ def run_main(spec, ctx):
             orc.match_values(expected2, second2.values(), version, tag, "second-library")
         except Exception as e:  # noqa
             orc.report(f"read-raises:{tag}:values:{type(e).__name__}:{_where(e)}", err=repr(e)[:300])
+
+    # ---- bulk copy: `new.update(old)` (the mapping interface) from the second library (same format as the library under
+    # test) into a library of the CURRENT format; every record must read back from the new file like its original
+    path3 = ctx.tmp / f"bulk{ext}"
+    bulk = Lib(path3, readonly=False, overwrite=True, bufsize=spec["bufsize"])
+    src3 = Lib(path2, readonly=True)
+    try:
+        with src3.reading(), bulk.writing():
+            bulk.update(src3)
+    except Exception as e:  # noqa
+        orc.report(f"bulk-copy-raises:{tag}:{type(e).__name__}:{_where(e)}", err=repr(e)[:300])
+    else:
+        bulk2 = Lib(path3, readonly=True)
+        with bulk2.reading():
+            missing = sorted(set(expected2) - set(bulk2.keys()))
+            if missing:
+                orc.report(f"key-set-differs:{tag}:bulk-copy", missing=missing[:5])
+            for key, sx in expected2.items():
+                if key in missing:
+                    continue
+                try:
+                    y = bulk2[key]
+                except Exception as e:  # noqa
+                    orc.report(f"read-raises:{tag}:bulk-copy:{type(e).__name__}:{_where(e)}", case=case2[key], err=repr(e)[:300])
+                    continue
+                ctx.count("read.bulk-copy")
+                d = orc.compare(sx, snap(y), version, tag, case2[key], "bulk-copy")
+                if d:
+                    orc.report(f"bulk-copy-differs:{tag}:{mech_field(d[0][0])}", case=case2[key], diff=d[:4])
 
     # ---- the library of the other format version: conversion hop (records read from the library under test are stored
     # there), then everything stored there is read back through a fresh handle
